@@ -2,7 +2,7 @@
    the stopping test => distance bound on the list model over Qc (every size; curvature from the checked certificate),
    and sample_posterior's selection of the direct route. *)
 From CV Require Import Base.Tac Base.LinAlg Base.Cmp Base.QcLin Model.C15_MAP Model.C15_Opt Proofs.C15_Lin Proofs.C15_MAP Proofs.C15_Top.
-From Coq Require Import QArith Qabs Qcanon.
+From Coq Require Import QArith Qabs Qcanon Lqa Psatz.
 Local Open Scope Qc_scope.
 
 (* ---------------------------------------------------------------------------------------------
@@ -259,6 +259,61 @@ Proof.
   rewrite (post_prec_zero_acts n A Pe xs WA Lxs). rewrite HM.
   unfold post_rhs, qzero_mat. rewrite (q_matvec_scalar_mat n 0 x0 L0), q_vscale_zero, L0.
   symmetry. apply q_vadd_vzero_r. apply q_mattvec_length. exact WA.
+Qed.
+
+(* ---- the evaluated distance bound is a theorem ---- *)
+Lemma this_plus (a b : Qc) : (this (a + b) == this a + this b)%Q.
+Proof. unfold Qcplus, Q2Qc. cbn [this]. apply Qred_correct. Qed.
+Lemma this_mult (a b : Qc) : (this (a * b) == this a * this b)%Q.
+Proof. unfold Qcmult, Q2Qc. cbn [this]. apply Qred_correct. Qed.
+
+Lemma q_sq_le_of_abs (a tol : Q) : (Qabs a <= tol)%Q -> (a * a <= tol * tol)%Q.
+Proof.
+  intros H. assert (T : (0 <= tol)%Q) by (eapply Qle_trans; [apply Qabs_nonneg | exact H]).
+  apply Qabs_Qle_condition in H. destruct H as [H1 H2]. nra.
+Qed.
+
+Lemma maxnorm_sq g tol : maxnorm_le g tol = true ->
+  (this (qdot g g) <= inject_Z (Z.of_nat (length g)) * tol * tol)%Q.
+Proof.
+  induction g as [|a g IH]; intros H.
+  - cbn [qdot dot length Z.of_nat]. change (this 0) with 0%Q. change (inject_Z 0) with 0%Q. lra.
+  - unfold maxnorm_le in H. cbn [forallb] in H. apply andb_true_iff in H as [Ha Hg].
+    apply Qle_bool_iff in Ha. specialize (IH Hg).
+    cbn [qdot dot length]. change (dot 0 Qcplus Qcmult g g) with (qdot g g).
+    rewrite this_plus, this_mult. rewrite Nat2Z.inj_succ. unfold Z.succ. rewrite inject_Z_plus.
+    pose proof (q_sq_le_of_abs _ _ Ha) as S. change (inject_Z 1) with 1%Q. nra.
+Qed.
+
+Lemma opt_stop_grad_length m n A b x0 ce cx mu gtol x Pe Px :
+  opt_stop_ok m n A b x0 ce (Some cx) mu gtol x = true ->
+  qinv (dense_of true n cx) = Some Px ->
+  length (post_grad n A Pe Px b x0 x) = n.
+Proof.
+  unfold opt_stop_ok. intros H IPx.
+  apply andb_true_iff in H as [H HM]. apply andb_true_iff in H as [H _]. apply andb_true_iff in H as [H _].
+  apply andb_true_iff in H as [H _]. apply andb_true_iff in H as [H _]. apply andb_true_iff in H as [SA _].
+  destruct (shape_ok_spec _ _ _ SA) as [WA LA].
+  destruct (qinv (dense_of true m ce)) as [Pe'|]; [|discriminate].
+  destruct (shape_ok n n (dense_of true n cx)) eqn:SC; [|discriminate].
+  destruct (shape_ok_spec _ _ _ SC) as [_ LC]. destruct (qinv_shape _ _ IPx) as [_ S]. rewrite LC in S.
+  unfold post_grad. rewrite q_vsub_length; rewrite q_mattvec_length by exact WA; [reflexivity|].
+  rewrite q_matvec_length. symmetry. exact S.
+Qed.
+
+(* the distance bound the model also evaluates is a THEOREM: mu^2 |xs - x|^2 <= n gtol^2 *)
+Theorem opt_stop_within m n A b x0 ce cx mu gtol x xs :
+  opt_stop_ok m n A b x0 ce (Some cx) mu gtol x = true ->
+  post_mean_exact m n A b x0 ce cx = Some xs -> length xs = n ->
+  dist_within n mu gtol x xs = true.
+Proof.
+  intros H HM Lxs.
+  destruct (opt_stop_distance_to_posterior_mean m n A b x0 ce cx mu gtol x xs H HM Lxs) as (Pe & Px & IPe & IPx & HG & HD).
+  pose proof (opt_stop_grad_length m n A b x0 ce cx mu gtol x Pe Px H IPx) as LG.
+  assert (MG : maxnorm_le (post_grad n A Pe Px b x0 x) gtol = true).
+  { unfold maxnorm_le. apply forallb_forall. intros gi Hi. apply Qle_bool_iff. exact (HG gi Hi). }
+  pose proof (maxnorm_sq _ _ MG) as S. rewrite LG in S.
+  unfold dist_within. apply Qle_bool_iff. unfold Qcle in HD. eapply Qle_trans; [exact HD | exact S].
 Qed.
 
 Example opt_stop_example :
